@@ -59,10 +59,20 @@ type Scenario struct {
 	Chdirs  []string  `json:"chdirs,omitempty"` // a further task that only changes the working directory
 	Others  []string  `json:"others,omitempty"` // further concurrent tasks packing other trees with other rule files: hist1 hist4 big
 	SharedPacker bool `json:"shared_packer,omitempty"` // all Pack calls of the scenario go through one *Packer
+	RulesKind string  `json:"rules_kind,omitempty"`    // "": a regular rule file; "dir": .terraformignore is a directory; "longline": valid rules followed by a line longer than the scanner accepts
+	Mutations []Mutation `json:"mutations,omitempty"`  // a further task that changes the tree while Pack runs (C19/C20/C12 only)
 	SchedSeed  uint64 `json:"sched_seed,omitempty"`
 	SchedShape string `json:"sched_shape,omitempty"`
 	Tapes      [][]int `json:"tapes,omitempty"` // pinned schedule tapes, one per scheduler in creation order
 	HaveTape   bool   `json:"have_tape,omitempty"`
+}
+
+// Mutation is one step of the mutator task: it runs at a scheduler yield of the
+// packing task, i.e. in the middle of the walk.
+type Mutation struct {
+	Op   string `json:"op"`   // truncate grow remove replace-with-dir chmod000
+	Path string `json:"path"` // src-relative
+	Size int    `json:"size,omitempty"`
 }
 
 // SrcRoot etc. are fixed arena paths.
